@@ -3,8 +3,8 @@ import ChfVerif.Model.DiamClient
 namespace Chf.Gen
 open Chf.DiamClient
 
-/-- internal/abmf/abmf.go: SendAccountDebitRequest / HandleCCA; internal/context: the sm.Client in field "" -/
-def abmfClient : Cfg := ⟨false, false, false, true, 5000, true⟩
+/-- internal/abmf/abmf.go: SendAccountDebitRequest / HandleCCA; internal/context: the sm.Client in field "AbmfClient" -/
+def abmfClient : Cfg := ⟨true, true, true, true, 5000, false⟩
 
 /-- internal/rating/rating.go: SendServiceUsageRequest / HandleSUA; internal/context: the sm.Client in field "RatingClient" -/
 def ratingClient : Cfg := ⟨true, true, true, true, 5000, false⟩
